@@ -81,11 +81,35 @@ func (c *LimitParallelRequests) acquireEndpoint(ctx context.Context, endpointLim
 	})
 	select {
 	case <-ctx.Done():
-		c.releaseEndpoint(endpointLimitKey)
+		// A waiter that is still queued owns no slot: it only leaves the queue.
+		// Only a request that was already admitted gives its slot back.
+		if !c.removeWaitingRequest(endpointLimitKey, reqChan) {
+			c.releaseEndpoint(endpointLimitKey)
+		}
 		return ctx.Err()
 	case <-reqChan:
 		return nil
 	}
+}
+
+// removeWaitingRequest removes reqChan from the endpoint queue. It returns false when the
+// request is not queued any more, which means it has been admitted in the meantime.
+func (c *LimitParallelRequests) removeWaitingRequest(endpointLimitKey uint64, reqChan chan struct{}) bool {
+	removed := false
+	_, _ = c.endpointQueues.ReplaceWithFunc(endpointLimitKey, func(oldValue *endpointQueue, oldLoaded bool) (newValue *endpointQueue, doDelete bool) {
+		if !oldLoaded {
+			return nil, true
+		}
+		for i, ch := range oldValue.orderedRequest {
+			if ch == reqChan {
+				oldValue.orderedRequest = append(oldValue.orderedRequest[:i], oldValue.orderedRequest[i+1:]...)
+				removed = true
+				break
+			}
+		}
+		return oldValue, false
+	})
+	return removed
 }
 
 func (c *LimitParallelRequests) releaseEndpoint(endpointLimitKey uint64) {
